@@ -367,8 +367,19 @@ def p_bundle( ctx ):
     # before the next iteration, on every path that queues the operation
     appends = [ n for n in cfg.nodes if n.kind == 'stmt' and n.stmt is not None and pfind( n.stmt, '%s.append( _x )' % REQS ) ]
     resets = [ n for n in cfg.nodes if n.kind == 'stmt' and n.stmt is not None and pmatch( n.stmt, '%s = {}' % PATHS ) and src.enclosing( n.stmt, ( ast.For, )) is loop[0] ]
-    if not appends or not resets:
-        raise AnalysisError( 'connector.issue: queueing ( %s.append ) or bundle reset ( %s = {} ) not found' % ( REQS, PATHS ))
+    if not appends:
+        raise AnalysisError( 'connector.issue: queueing ( %s.append ) not found' % REQS )
+    # a flushed bundle takes its recorded paths with it: from every flush inside the loop, every path to the next queueing passes a reset of
+    # the recorded paths (else all later bundles are sent along the FIRST bundle's route / send path)
+    flushes = [ sn for sn in sends if sn.stmt is not None and src.enclosing( sn.stmt, ( ast.For, )) is loop[0] ]
+    for sn in flushes:
+        if resets and all( cfg.must_pass( sn, a_, resets, correlated=False ) for a_ in appends if a_ in cfg.reachable( sn, edge_ok=lambda x, y, l: y is not h )):
+            res.ok( src, sn.stmt, 'after a flush the recorded route / send path are cleared before the next operation is queued' )
+        else:
+            res.bad( src, sn.stmt, 'the recorded bundle paths survive a flush ( no `%s = {}` on the way to the next %s.append )' % ( PATHS, REQS ),
+                     'every later bundle is compared with, and sent along, the first bundle\'s route and send path: an operation spelled with another route path reaches a different device (or is accepted where its own path would have been refused)' )
+    if not resets:
+        return res
     for key in ( 'route_path', 'send_path' ):
         sets = [ n for n in cfg.nodes if n.own() is not None and any(
             is_call_to( c, PATHS + '.setdefault' ) and c.args and try_fold( c.args[0] ) == key for c in ast.walk( n.own() ) if isinstance( c, ast.Call )) ]
